@@ -869,7 +869,9 @@ func RunWorker(b *Built, o RunOpts) ([]harness.Result, error) {
 	from := 0
 	for from < len(b.Meta.Registry) {
 		args := append(o.args(), "-from", strconv.Itoa(from))
-		stdout, stderr, code := run(b.Dir, 30*time.Minute, worker, args...)
+		// the worker has its own progress watchdog (exit 3 on a hung execution); this outer limit is
+		// only a last resort against a wedged process
+		stdout, stderr, code := run(b.Dir, 6*time.Hour, worker, args...)
 		last := -1
 		lastID := ""
 		sc := bufio.NewScanner(strings.NewReader(stdout))
